@@ -315,6 +315,44 @@ def simulate(res, time, sched):
             res.simulate(time, sched)
 
 
+def simulate_interrupted(res, time, sched, at_call, how="raise"):
+    """Fault injection: the user presses Ctrl-C while simulate() is inside its time loop. The interrupt is
+    delivered from the diffusivity hook on its `at_call`-th evaluation, either as a plain
+    `raise KeyboardInterrupt` or as a real SIGINT (default handler). Returns ('raised', type name) or
+    ('returned', None); SIM_EVENTS is left empty."""
+    import signal
+
+    n = {"calls": 0}
+    real = res.alpha_scaled
+
+    def hook(pseudopressure):
+        n["calls"] += 1
+        if n["calls"] == at_call:
+            if how == "raise":
+                raise KeyboardInterrupt
+            signal.raise_signal(signal.SIGINT)
+        return real(pseudopressure)
+
+    res.alpha_scaled = hook
+    time, sched = as_handed_over(res, time, sched)
+    try:
+        with warnings.catch_warnings():
+            warnings.simplefilter("ignore")
+            if sched is None:
+                res.simulate(time)
+            else:
+                res.simulate(time, sched)
+        out = ("returned", None)
+    except KeyboardInterrupt:
+        out = ("raised", "KeyboardInterrupt")
+    except Exception as e:  # noqa: BLE001
+        out = ("raised", type(e).__name__)
+    finally:
+        del res.alpha_scaled  # back to the class's own method
+        SIM_EVENTS.clear()
+    return out + (n["calls"],)
+
+
 def simulate_concurrently(runs, switch_interval=1e-5, timeout=240):
     """runs: list of (reservoir, time, schedule). All simulate() calls run at once, one thread each
     (the sparse solver releases the interpreter lock, so they truly overlap). Returns
